@@ -21,6 +21,8 @@ import (
 	"encoding/json"
 	"fmt"
 	"math/big"
+	"os"
+	"regexp"
 	"sort"
 	"strings"
 	"testing"
@@ -1143,6 +1145,20 @@ func TestVerifC14Batch(t *testing.T) {
 		parts = append(parts,
 			&c14Part{name: "n3-small", n: 3, alpha: small, marks: []string{c14MarkLabelBE, c14MarkNone}, paths: bothPaths},
 			&c14Part{name: "n2", n: 2, alpha: mid, marks: allMarks, paths: bothPaths})
+	}
+	// `bin/check C14 --only <regex>` restricts the run to the parts whose name matches (when any does)
+	if only := os.Getenv("VERIF_ONLY"); only != "" {
+		if re, err := regexp.Compile(only); err == nil {
+			var sel []*c14Part
+			for _, p := range parts {
+				if re.MatchString(p.name) {
+					sel = append(sel, p)
+				}
+			}
+			if len(sel) > 0 {
+				parts = sel
+			}
+		}
 	}
 	workers := make([]*c14Worker, env.Workers)
 	for i := range workers {
